@@ -78,6 +78,8 @@ type pathCtx struct {
 	world       *world // model stores etc (intercepts)
 	mapOrder    bool   // fork on map iteration order
 	scratch     map[string]interface{}
+	panicObj    interface{}
+	panicStack  string
 }
 
 func (c *pathCtx) inconclusive(f string, a ...interface{}) {
